@@ -22,12 +22,22 @@ CHECKS['C02'] = {
             'is executed from the same pre-state and a fresh handler on the same directories is queried. One evaluation = one (case, point, action) execution. '
             'Non-trivial = the point lies in the temp-file-creation..rename window of WriteBlock, or some volume has a non-empty pre-state. '
             'distinct = distinct (size class, chunk, Serialize, pre-states, order, point label without line number, occurrence index, action). '
-            'The enumeration of points is exhaustive per generated case only (cases themselves are sampled).',
+            'The enumeration of points is exhaustive per generated case only (cases themselves are sampled). '
+            'Unit overlap (round 2): the same case generator (mostly one writable volume), TWO PUTs of the same block on one handler, each on its own goroutine, '
+            'parked at every instrumented point; rapid draws the schedule (which PUT advances, with a drawn readiness to switch), the victim PUT, its target point '
+            '(half of the time inside the temp-file..rename window of a solo run) and the way it is abandoned: die-one (all goroutines of the victim stop at their next point, '
+            'its client goes away, the other PUT runs to completion), die-all (process death while both are in flight; a response of the other PUT counts only if it was complete '
+            'at that instant), cancel / cancel-nw (client disconnect at the point), fail (EIO, sticky for the victim only) or none; then the same restart oracle. '
+            'One evaluation = one overlapped execution; non-trivial = steps of the two PUTs interleave and the victim reached its target (or nobody was to be abandoned); '
+            'distinct = distinct (case shape, victim, action, released step sequence).',
     'assumptions': [
         'process death is simulated by runtime.Goexit at an instrumented point; Go file writes are unbuffered, deferred unlock/Close calls that still run have no on-disk effect '
         '(cross-checked in the thorough tier by a re-executed child that is really SIGKILLed)',
         'kill points are the statement boundaries found by the AST instrumenter in unix_volume.go plus every data chunk and half-chunk of the block copy; finer instants (inside one syscall) are not separated',
         'power loss / fsync durability is not modelled (the property speaks of process death)',
+        'unit overlap: the two PUTs are interleaved at filesystem-step granularity; goroutines are attributed to a PUT by goroutine ancestry (stack header "created by ... in goroutine N"); '
+        'a PUT that neither reaches a point nor finishes while a stack dump shows a goroutine in flock(2) or waiting for the Serialize mutex is treated as blocked (a wrong guess only costs schedule control, never a verdict); '
+        'die-one models a write that hangs for good at that step while its client gives up (deferred unlock/close calls of the stopped goroutine still run, they have no effect on file contents)',
     ],
     'units': [
         unit('crash', 'keepstore_c02', '^TestVerifC02Crash$', {'shards': 15, 'checks': 4}, {'shards': 16, 'checks': 80, 'timeout': 3000}),
